@@ -352,8 +352,10 @@ impl<Db: Database> StorageManager<Db> {
             .tic_toc(METRIC_READ_TIME, self.db.get::<St>(id))
             .await?;
         if let Some(cache) = &self.cache {
-            // cache the result
-            cache.put(&record).await;
+            // cache the result, unless a more recent version was cached by a write meanwhile
+            cache
+                .batch_put_if_absent(slice::from_ref(&record))
+                .await;
         }
         Ok(record)
     }
@@ -402,9 +404,9 @@ impl<Db: Database> StorageManager<Db> {
                 .tic_toc(METRIC_READ_TIME, self.db.batch_get::<St>(&keys))
                 .await?;
 
-            // cache the db returned results
+            // cache the db returned results, unless more recent versions were cached by a write meanwhile
             if let Some(cache) = &self.cache {
-                cache.batch_put(&results).await;
+                cache.batch_put_if_absent(&results).await;
             }
 
             records.append(&mut results);
@@ -487,7 +489,9 @@ impl<Db: Database> StorageManager<Db> {
         if let Some(state) = maybe_db_state {
             // cache the item for future access
             if let Some(cache) = &self.cache {
-                cache.put(&DbRecord::ValueState(state.clone())).await;
+                cache
+                    .batch_put_if_absent(&[DbRecord::ValueState(state.clone())])
+                    .await;
             }
 
             Ok(state)
